@@ -147,7 +147,8 @@ def run(ctx):
                     if overlays and any(x != FILE for x in overlays):
                         lbad = lbad or "segment bytes overwritten with %s" % A.show(overlays[0])[:60]
                     # the file bytes are the whole image only if nothing of p_memsz lies beyond p_filesz
-                    tied = any(c[0][0] == "bin" and c[0][1] == "Eq" and ((c[1] == "==" and c[2] == 1) or (c[1] == "!=" and 0 in c[2])) and
+                    # (an equality that holds on the path, spelled == taken or != not taken)
+                    tied = any(c[0][0] == "bin" and ((c[0][1] == "Eq" and U.cond_truth(c) == 1) or (c[0][1] == "Ne" and U.cond_truth(c) == 0)) and
                                {x[2] for x in H.leaves(c[0]) if x[0] == "field" and x[1] == EM.SEG} == {"p_memsz", "p_filesz"}
                                for c in o.path.conds)
                     if not tied:
